@@ -131,13 +131,17 @@ def fp_obligations(tier, seed):
             wc = Wrapper('w_conv_' + tag, ct, [(ct, 'x')], 'return %s.coerce_in(%s{});' % (mk, u2))
             body = '''
   ASSUME(%s(x));
+  %s k_lib = %s(1);                 /* the factor the library multiplies by (1 * k is exact) */
+  %s edge = MAXF / k_lib;           /* the checker's own threshold fl(max / k) */
+/*KF-EXCLUDE*/
   bool o = %s(x), t = %s(x), l = %s(x);
   %s p = %s(x);
   CHECK(o || %s(p), "not-reported-implies-product-finite");
   CHECK(!o || !(p <= %s && p >= -%s), "reported-only-near-or-beyond-the-limit");
   CHECK(!t, "floating-reps-never-truncate-by-convention");
   CHECK(l == (o || t), "lossy-is-disjunction");
-''' % (fin, wo.name, wt.name, wl.name, ct, wc.name, fin, big, big)
+''' % (fin, ct, wc.name, ct, wo.name, wt.name, wl.name, ct, wc.name, fin, big, big)
+            body = body.replace('MAXF', 'FLT_MAX' if rep == 'f32' else 'DBL_MAX')
             obs.append(Ob(id='C04.fp.%s' % tag, prop='C04', group='C04.%s' % rep, prelude=pre, wrappers=[wo, wt, wl, wc], inputs=[(ct, 'x')],
                           body=body, fp=True,
                           contract='forall finite %s x. !will_conversion_overflow ==> x*k (as computed by the conversion) is finite; '
